@@ -66,6 +66,7 @@ pub fn run(ctx: &mut Ctx, suite: &str) {
         "c10s" => c04::run_c10s(ctx),
         "c08s" => c12::run_stall(ctx),
         "c19" => c19::run(ctx),
+        "c19a" => c19::run_age(ctx),
         "c20" => c20::run(ctx),
         "tables" => tables::gen(),
         "headtab" => tables::gen_head(),
